@@ -74,8 +74,11 @@ def run(ctx, res):
             for at in atts:
                 tasks.append((fmt, ch, at, (), rng.randrange(1000)))
         for f in fl:
-            reps = 2 if ctx.quick() else 8
-            for _ in range(reps):
+            # every credential choice: some faults only exist for one key type (RSA exponent, EC curve, ...), and which
+            # choice a seed happens to draw must not decide whether a fault is exercised at all
+            for ch in choices:
+                tasks.append((fmt, ch, rng.choice(atts), (f,), rng.randrange(1000)))
+            for _ in range(0 if ctx.quick() else 6):
                 tasks.append((fmt, rng.choice(choices), rng.choice(atts), (f,), rng.randrange(1000)))
         # combinations: pairs (thorough: all pairs; quick: a sample)
         pairs = list(itertools.combinations(fl, 2))
